@@ -145,6 +145,37 @@ Proof.
   rewrite E in A. congruence.
 Qed.
 
+
+(* ---------- the DID-document resolver ---------- *)
+Lemma first_method_sound f ms m : first_method f ms = Some m ->
+  In m ms /\ contains f (vm_id m) = true /\ vm_rel m <> RKeyAgr.
+Proof.
+  induction ms as [|x r IH]; cbn; [discriminate|].
+  destruct (contains f (vm_id x) && signing_rel (vm_rel x)) eqn:E.
+  - intro H. inversion H; subst. apply andb_true_iff in E as [E1 E2].
+    split; [left; reflexivity|]. split; [exact E1|]. intro K. rewrite K in E2. discriminate.
+  - intro H. destruct (IH H) as (A & B & C). split; [right; exact A|]. split; assumption.
+Qed.
+
+Lemma resolve_docs_sound ds d f k : resolve_docs ds d f = Some k ->
+  exists ms m, find_doc ds d = Some ms /\ In m ms /\ vm_key m = k /\
+               contains f (vm_id m) = true /\ vm_rel m <> RKeyAgr.
+Proof.
+  unfold resolve_docs. destruct (find_doc ds d) as [ms|]; [|discriminate].
+  destruct (first_method f ms) as [m|] eqn:F; [|discriminate]. intro H. inversion H; subst.
+  destruct (first_method_sound _ _ _ F) as (A & B & C). exists ms, m. repeat split; assumption.
+Qed.
+
+(* a method the document lists for key agreement only is never resolved *)
+Lemma keyagreement_only_unresolved ds d f ms :
+  find_doc ds d = Some ms -> (forall m, In m ms -> contains f (vm_id m) = true -> vm_rel m = RKeyAgr) ->
+  resolve_docs ds d f = None.
+Proof.
+  intros FD H. destruct (resolve_docs ds d f) as [k|] eqn:R; [|reflexivity].
+  apply resolve_docs_sound in R as (ms' & m & FD' & I & _ & C & NK). rewrite FD in FD'. inversion FD'; subst.
+  exfalso. apply NK. apply H; assumption.
+Qed.
+
 (* ---------- the verification pipeline ---------- *)
 Section Sound.
   Variable parse_hdr : list N -> option hview.
@@ -393,3 +424,22 @@ Section Sound.
     intros _. apply String.eqb_eq in E. subst. split; reflexivity.
   Qed.
 End Sound.
+
+(* didsignjwt.VerifyJWT / any verifier over the VDR resolver: an accepted token is signed, under its alg, by a key
+   that the document of the kid's DID lists under a relationship other than keyAgreement, in a method whose id
+   contains the kid's fragment *)
+Lemma did_accept_signing_method ph ds sm tok det h payload :
+  parse_jws ph (resolve_docs ds) sm Fixed VBasic det tok = Accept h payload ->
+  exists d f rest ms m alg p sg,
+    split_on "#" (kid_string h) = d :: f :: rest /\ find_doc ds d = Some ms /\ In m ms /\
+    contains f (vm_id m) = true /\ vm_rel m <> RKeyAgr /\
+    h_alg h = JS alg /\ alg_spec alg = Some (pk_fam (vm_key m), p) /\
+    b64dec (nth 2 (split_dot tok) []) = Some sg /\
+    sm sg = SBy (pk_id (vm_key m)) p (signed_bytes h (nth 0 (split_dot tok) []) payload).
+Proof.
+  intro H. apply jws_accept_sound in H; [|discriminate].
+  destruct H as (hs & ps & ss & hb & a & k & q & sg & T & _ & _ & _ & S & _ & _ & A & K & AS & DS & M & PR).
+  cbn in K. destruct K as (_ & d & f & rest & SP & R).
+  apply resolve_docs_sound in R as (ms & m & FD & I & EK & C & NK). subst k.
+  exists d, f, rest, ms, m, a, q, sg. rewrite S. cbn [nth]. repeat split; assumption.
+Qed.
